@@ -15,7 +15,10 @@
                                       (unmask, daemon-reload, enable), stop_and_delete_service
                                       (stop, disable, remove the unit file, daemon-reload if removed)
      proxy_agent_shared/src/misc_helpers.rs execute_command (the exit status of systemctl is NOT
-                                      examined: only a failure to spawn is an error)
+                                      examined: only a failure to spawn is an error).  A systemctl
+                                      invocation may FAIL (oracle [fails]): it is then logged, has
+                                      no effect on the service, and -- as in the code -- the tool
+                                      carries on regardless.
 
    World = file system (SetupFs.v) + service state (running, enabled: the ASSUMED behaviour of
    systemd, which the harness' stand-in `systemctl` implements literally) + one ordered log of
@@ -74,11 +77,15 @@ Section WithOracle.
 (* does executing this file with `--version` succeed (spawn ok, exit status 0)?  The theorems
    hold for every such oracle; the correspondence run instantiates it with [standin_runnable]. *)
 Context (runnable : file -> bool).
+(* does this systemctl invocation fail (non-zero exit, no effect on the service)?  It may depend on
+   the verb and on everything logged so far.  Arbitrary in the theorems; [fails_of] in the runs. *)
+Context (fails : verb -> list event -> bool).
 
 (* the assumed service manager: what `systemctl <verb> azure-proxy-agent` does *)
 Definition call (v : verb) (w : world) : world :=
   let unit_present := fs_has SysUnit (wfs w) in
   let w' := emit (ECall v) w in
+  if fails v (wlog w) then w' else
   match v with
   | VStop => {| wfs := wfs w'; wrunning := false; wenabled := wenabled w'; wlog := wlog w'; wtool := wtool w' |}
   | VStart => {| wfs := wfs w'; wrunning := if unit_present then true else wrunning w';
@@ -259,14 +266,12 @@ Definition event_code (e : event) : N * N :=
 Definition observe (watch : list loc) (w : world) : list (option file) * bool * bool :=
   (map (fun l => fs_get l (wfs w)) watch, wrunning w, wenabled w).
 
-Fixpoint run_obs (runnable : file -> bool) (watch : list loc) (cmds : list cmd) (w : world)
-  : list (N * (list (option file) * bool * bool) * list (N * N)) :=
-  match cmds with
-  | [] => []
-  | c :: t =>
-      let w' := exec runnable c (clear_log w) in
-      (exit_code runnable c w, observe watch w', map event_code (wlog w')) :: run_obs runnable watch t w'
-  end.
+(* the fault oracle of the runs: the k-th systemctl call of a command fails iff the k-th entry of
+   the command's fault list says so (the log is cleared before each command in [run_obs_ix]) *)
+Definition count_calls (l : list event) : nat :=
+  length (filter (fun e => match e with ECall _ => true | _ => false end) l).
+Definition fails_of (fl : list bool) (v : verb) (log : list event) : bool := nth (count_calls log) fl false.
+Definition never_fails (v : verb) (log : list event) : bool := false.
 
 (* the same with every file printed as its index in a pool of known files (the commands only copy
    and delete, so every file ever present is one of the initial ones); keeps the printed terms small *)
@@ -278,13 +283,15 @@ Fixpoint file_index (pool : list file) (f : file) (i : N) : N :=
   end.
 Definition observe_ix (pool : list file) (watch : list loc) (w : world) : list (option N) * bool * bool :=
   (map (fun l => option_map (fun f => file_index pool f 0) (fs_get l (wfs w))) watch, wrunning w, wenabled w).
-Fixpoint run_obs_ix (runnable : file -> bool) (pool : list file) (watch : list loc) (cmds : list cmd) (w : world)
+Fixpoint run_obs_ix (runnable : file -> bool) (pool : list file) (watch : list loc)
+    (cmds : list (cmd * list bool)) (w : world)
   : list (N * (list (option N) * bool * bool) * list (N * N)) :=
   match cmds with
   | [] => []
-  | c :: t =>
-      let w' := exec runnable c (clear_log w) in
-      (exit_code runnable c w, observe_ix pool watch w', map event_code (wlog w')) :: run_obs_ix runnable pool watch t w'
+  | (c, fl) :: t =>
+      let w' := exec runnable (fails_of fl) c (clear_log w) in
+      (exit_code runnable (fails_of fl) c (clear_log w), observe_ix pool watch w', map event_code (wlog w'))
+        :: run_obs_ix runnable pool watch t w'
   end.
 Definition mk_world (files : list (loc * file)) (running enabled : bool) : world :=
   {| wfs := fold_left (fun m kv => fs_set (fst kv) (snd kv) m) files [];
@@ -297,6 +304,7 @@ Definition standin_magic : bytes :=
 Definition standin_runnable (f : file) : bool :=
   negb (N.land (fmode f) 73 =? 0) && starts_with (fdata f) standin_magic.   (* 73 = 0o111 *)
 
-Definition run_scenario (files : list (loc * file)) (extra_watch : list loc) (running enabled : bool) (cmds : list cmd) :=
+Definition run_scenario (files : list (loc * file)) (extra_watch : list loc) (running enabled : bool)
+    (cmds : list (cmd * list bool)) :=
   run_obs_ix standin_runnable (map snd files) (fixed_locs ++ extra_watch) cmds (mk_world files running enabled).
 
